@@ -712,7 +712,7 @@ static void restore_jmpbuf_rstack(struct mcount_thread_data *mtdp, unsigned long
 }
 
 /* it's crazy to call vfork() concurrently */
-static int vfork_parent;
+int mcount_vfork_parent;
 static struct mcount_thread_data *vfork_mtdp;
 static int vfork_rstack_idx;
 static int vfork_record_idx;
@@ -722,7 +722,7 @@ static struct mcount_shmem vfork_shmem;
 static void prepare_vfork(struct mcount_thread_data *mtdp, struct mcount_ret_stack *rstack)
 {
 	/* save original parent info */
-	vfork_parent = getpid();
+	mcount_vfork_parent = getpid();
 	vfork_mtdp = mtdp;
 	vfork_rstack_idx = mtdp->idx;
 	vfork_record_idx = mtdp->record_idx;
@@ -730,6 +730,8 @@ static void prepare_vfork(struct mcount_thread_data *mtdp, struct mcount_ret_sta
 	mcount_memcpy4(&vfork_rstack, rstack, sizeof(*rstack));
 	/* it will be force flushed */
 	vfork_rstack.flags |= MCOUNT_FL_WRITTEN;
+	/* only the child sets up a new task when it leaves vfork() */
+	vfork_rstack.flags &= ~MCOUNT_FL_VFORK;
 }
 
 /* this function will be called in child */
@@ -756,30 +758,43 @@ static void setup_vfork(struct mcount_thread_data *mtdp)
 	update_kernel_tid(tmsg.tid);
 }
 
+/*
+ * On vfork, the calling thread sleeps until the child is exec'ed or exited.
+ * So if that thread sees the parent pid, the child is done: it gets the state
+ * it had when it called vfork() back.  This is done by the first hook it
+ * runs - normally the exit of vfork(), but a signal handler (SIGCHLD) can run
+ * before that.  Other threads of the parent keep running meanwhile and must
+ * not take the saved state.
+ */
+void mcount_restore_vfork(struct mcount_thread_data *mtdp)
+{
+	struct mcount_ret_stack *rstack;
+
+	if (mtdp != vfork_mtdp || getpid() != mcount_vfork_parent)
+		return;
+
+	/* flush tid cache */
+	mtdp->tid = 0;
+
+	mtdp->idx = vfork_rstack_idx;
+	mtdp->record_idx = vfork_record_idx;
+	rstack = &mtdp->rstack[mtdp->idx - 1];
+
+	mcount_vfork_parent = 0;
+	vfork_mtdp = NULL;
+
+	mcount_memcpy4(&mtdp->shmem, &vfork_shmem, sizeof(vfork_shmem));
+
+	mcount_memcpy4(rstack, &vfork_rstack, sizeof(*rstack));
+}
+
 /* this function detects whether child is finished */
 static struct mcount_ret_stack *restore_vfork(struct mcount_thread_data *mtdp,
 					      struct mcount_ret_stack *rstack)
 {
-	/*
-	 * On vfork, the calling thread sleeps until child is exec'ed or
-	 * exited.  So if it sees parent pid, that means child was done.
-	 * The other threads of the parent keep running meanwhile and
-	 * must not take the saved state.
-	 */
-	if (mtdp == vfork_mtdp && getpid() == vfork_parent) {
-		/* flush tid cache */
-		mtdp->tid = 0;
-
-		mtdp->idx = vfork_rstack_idx;
-		mtdp->record_idx = vfork_record_idx;
+	if (mtdp == vfork_mtdp && getpid() == mcount_vfork_parent) {
+		mcount_restore_vfork(mtdp);
 		rstack = &mtdp->rstack[mtdp->idx - 1];
-
-		vfork_parent = 0;
-		vfork_mtdp = NULL;
-
-		mcount_memcpy4(&mtdp->shmem, &vfork_shmem, sizeof(vfork_shmem));
-
-		mcount_memcpy4(rstack, &vfork_rstack, sizeof(*rstack));
 	}
 
 	return rstack;
@@ -882,6 +897,9 @@ static unsigned long __plthook_entry(unsigned long *ret_addr, unsigned long chil
 	}
 
 	recursion = false;
+
+	if (unlikely(mcount_vfork_parent))
+		mcount_restore_vfork(mtdp);
 
 	func = bsearch((void *)child_idx, pd->special_funcs, pd->nr_special, sizeof(*func),
 		       idxfind);
@@ -1085,7 +1103,7 @@ again:
 			setup_vfork(mtdp);
 	}
 
-	if (unlikely(vfork_parent))
+	if (unlikely(mcount_vfork_parent))
 		rstack = restore_vfork(mtdp, rstack);
 
 	dyn_idx = rstack->dyn_idx;
